@@ -27,6 +27,7 @@ func runC10(c *Ctx) {
 	ruleCancelError(c, p, roles)
 	ruleCancelBound(c, p, roles, "C10.cancel-bound")
 	ruleNoStrayGoroutine(c, p, roles, "C10.no-stray-goroutine")
+	ruleWritesUnderWatch(c, p, roles, "C10.write-watched")
 	ruleNoLeak(c, p, roles, "C10.leak")
 	ruleHandshakeWatchdog(c, p)
 	rulePacketDeadline(c, p, "C10.deadline")
@@ -1130,5 +1131,52 @@ func ruleNoStrayGoroutine(c *Ctx, p *core.Program, r *doRoles, rule string) {
 	}
 	if !bad {
 		c.R.Ok(rule, core.FuncName(r.Do), cfg, p.Pos(r.Do.Pos()), sprintf("%d functions reachable from Do, no go statement", n))
+	}
+}
+
+// ruleWritesUnderWatch (C10 / C04): Do writes to the connection only from its goroutines.
+func ruleWritesUnderWatch(c *Ctx, p *core.Program, r *doRoles, rule string) {
+	c.R.Rule(rule, "Do itself (outside the closures it hands to the errgroup and the deferred clean-up) calls nothing that reaches a write to the connection (net.Conn.Write, proto.Writer.Flush): every write of a query happens in the sender goroutine, next to a receive loop that re-tests the context and a cancel-watch that can close the connection - a request written inline before the goroutines exist blocks in conn.Write for ever when the peer has stopped reading, with nobody left to honour the cancellation")
+	cfg := p.Cfg.Name
+	isWrite := func(f *types.Func) bool {
+		if core.IsMethod(f, core.PkgProto, "Writer", "Flush") {
+			return true
+		}
+		if f.Name() == "Write" {
+			if sig, ok := f.Type().(*types.Signature); ok && sig.Recv() != nil && core.IsNamed(sig.Recv().Type(), "net", "Conn") {
+				return true
+			}
+		}
+		return false
+	}
+	n := 0
+	bad := false
+	for _, b := range r.Do.Blocks {
+		for _, in := range b.Instrs {
+			call, ok := in.(ssa.CallInstruction)
+			if !ok {
+				continue
+			}
+			if _, isGo := in.(*ssa.Go); isGo {
+				continue
+			}
+			n++
+			reaches := false
+			if f := core.CalleeFunc(call); f != nil && isWrite(f) {
+				reaches = true
+			}
+			if sf := core.StaticFn(call); sf != nil && sf.Blocks != nil && pkgOf(sf) != nil && (pkgOf(sf).Path() == core.PkgCh || pkgOf(sf).Path() == core.PkgProto) {
+				if core.ReachesCallee(sf, isWrite, 4) {
+					reaches = true
+				}
+			}
+			if reaches {
+				bad = true
+				c.R.Bad(rule, core.CallKey(r.Do, call), cfg, p.Pos(call.Pos()), "Do writes to the connection from its own frame, outside the sender goroutine: while this write blocks no receive loop tests the context and no cancel-watch can close the connection")
+			}
+		}
+	}
+	if !bad {
+		c.R.Ok(rule, core.FuncName(r.Do), cfg, p.Pos(r.Do.Pos()), sprintf("%d calls in Do's own frame, none reaches a connection write", n))
 	}
 }
